@@ -23,3 +23,62 @@ theorem C01_check_run_closed {w : World} (h : C01Inv w) (hl : NftLedgerOk w) (op
 #print axioms C01_backed_closed
 #print axioms C01_check_run_closed
 end Fuzion
+
+namespace Fuzion
+
+/-- A deployment: the marketplace has just been instantiated (empty tables, id 0 marked, registry
+    address stored), holds nothing — no native coin, no honest token, no honest NFT —, the registry is
+    empty and the pool account is not the marketplace. -/
+structure Deployed (w : World) : Prop where
+  mkt : ∃ t r, w.mkt = instantiate t r
+  bank0 : ∀ d, lget w.bank (w.self, d) = 0
+  cw200 : ∀ t, lget w.cw20 (t, w.self) = 0
+  nft0 : ∀ k, alookup k w.nft ≠ some w.self
+  reg0 : w.reg = []
+  pool : w.pool ≠ w.self
+
+/-- the invariant holds at deployment … -/
+theorem C01Inv_deployed {w : World} (h : Deployed w) : C01Inv w := by
+  obtain ⟨t, r, hm⟩ := h.mkt
+  have hl : w.mkt.listings = [] := by rw [hm]; rfl
+  have hb : w.mkt.buckets = [] := by rw [hm]; rfl
+  refine ⟨hm ▸ IdsInv.init t r, hm ▸ WFInv.init _ _ t r, ⟨?_, ?_, ?_⟩, h.pool, ?_⟩
+  · intro d
+    rw [h.bank0 d]
+    simp [owedNative, pendingFee, listingsSum, bucketsSum, hl, hb]
+  · intro tk _
+    rw [h.cw200 tk]
+    simp [owedCw20, listingsSum, bucketsSum, hl, hb]
+  · refine ⟨by simp [recordedNfts, hl, hb], ?_⟩
+    intro n _
+    simp only [recordedNfts, hl, hb, List.flatMap_nil, List.append_nil, List.not_mem_nil, false_iff]
+    exact h.nft0 _
+  · intro c e he
+    rw [h.reg0] at he
+    simp [regSingle, alookup] at he
+
+/-- … hence **C01 for every history from deployment**: after any list of ops that are not signed
+    by the marketplace and in which no honest token forges a hook call, for each native denomination
+    and each honest CW20 token the marketplace's balance equals what the records promise (goods +
+    pending fees), and the honest NFTs it owns are exactly the recorded ones, each recorded once. -/
+theorem C01_from_deployment {w : World} (h : Deployed w) (ops : List Op)
+    (hops : ∀ op ∈ ops, op.avoids w.self ∧ op.honest w) : Backed (run w ops) :=
+  (C01_backed_closed ops (C01Inv_deployed h) hops).backed
+
+/-- a concrete deployment (the example world of Props/C18.lean without the hostile contract) -/
+def deployedEx : World :=
+  { self := 9, pool := 8, regAddr := 7, junoD := 0, usdcD := 1, nowNs := 1700000000123456789, height := 1000,
+    mkt := instantiate 1700000000123456789 (some 7), reg := [],
+    bank := [((1, 0), 10), ((1, 2), 10)], cw20 := [], nft := [],
+    contracts := [(9, ⟨none, 0, false, false⟩), (7, ⟨none, 0, false, false⟩)] }
+
+/-- non-vacuity: it satisfies `Deployed` -/
+example : Deployed deployedEx := by
+  refine ⟨⟨1700000000123456789, some 7, rfl⟩, ?_, ?_, ?_, rfl, by decide⟩
+  · intro d; simp [deployedEx, lget, alookup]
+  · intro t; simp [deployedEx, lget, alookup]
+  · intro k; simp [deployedEx, alookup]
+
+#print axioms C01Inv_deployed
+#print axioms C01_from_deployment
+end Fuzion
